@@ -231,12 +231,16 @@ type rig struct {
 	cli        *http.Client
 }
 
+// The scrape timeout is a wall-clock deadline inside kvass; only the C13 stall faults want it to
+// fire. Everything else uses a timeout that a heavily loaded machine does not reach either.
+const rigLongTimeout = "120s"
+
 const rigConfigTmpl = `global:
-  scrape_interval: 15s
-  scrape_timeout: 10s
+  scrape_interval: 300s
+  scrape_timeout: 120s
 scrape_configs:
 - job_name: j1
-  scrape_interval: 15s
+  scrape_interval: 300s
   scrape_timeout: %s
   static_configs:
   - targets: ['unused.example:1']
@@ -376,7 +380,7 @@ func (r *rig) ensureSrv() {
 		r.srv.Config.ErrorLog = log.New(io.Discard, "", 0)
 		r.srv.Start()
 		pu, _ := url.Parse(r.srv.URL)
-		r.cli = &http.Client{Transport: &http.Transport{Proxy: http.ProxyURL(pu), DisableCompression: true, DisableKeepAlives: true}, Timeout: 30 * time.Second}
+		r.cli = &http.Client{Transport: &http.Transport{Proxy: http.ProxyURL(pu), DisableCompression: true, DisableKeepAlives: true}, Timeout: 150 * time.Second}
 	}
 }
 
